@@ -1700,6 +1700,10 @@ def gen_c11(rng, tier):
         ds, de = rng.choice(G.DELIMS)
         unit = rng.choice(["  ", "    ", "\t"])
         src_l, exp_l = nested_unwrap_doc(rng, ds, de, unit, rng.randint(1, 3))
+        if rng.random() < 0.4:
+            # an element removed earlier in the file (the pair indices of the nested blocks are counted behind it)
+            src_l = ["head", ds + "tl " + G.EXPIRED + de, "old", ds + "/tl" + de] + src_l
+            exp_l = ["head"] + exp_l
         fin = rng.random() < 0.5
         cid = f"n{i}"
         cases.append(G.dcase(cid, ds, de, "\n".join(src_l) + ("\n" if fin else ""), G.Cfg("tl", "rm", "+00:00", G.NOW, ("x",))))
@@ -1728,7 +1732,7 @@ def occurrences(s, p):
 C18_TAGNAMES = G.TAGNAMES + [("time-limited", "limited"), ("marker", "removal-marker"), ("x-期限", "期限"), ("tl", "tl2"),
                              ("ab", "a"), ("a", "a-b"), ("t", "tt"), ("Übergang", "ÉTIQUETTE"), ("ΤΕΛΟΣ", "Ärmel"), ("TL", "Rm"),
                              ("ǅ", "İ"), ("MARKER", "marker"), ("tl", "TL"), ("Rm", "rm"), ("x-Y", "X-y"),
-                             ("to", "name"), ("skip", "unwrap-block"), ("name", "c")]
+                             ("to", "name"), ("skip", "unwrap-block"), ("name", "c"), ("mark'er", 'lim"ited'), ("t'", 'r"')]
 # tag names spelled like attribute names necessarily occur elsewhere in the document (as attributes)
 C18_ATTR_NAMED = {("to", "name"), ("skip", "unwrap-block"), ("name", "c")}
 
@@ -1817,6 +1821,8 @@ def gen_c19(rng, tier):
            # two adjacent seams: an inline removal at the end of a line followed by a removed own-line element
            ("<", ">", '<tl to="2010-01-01 00:00:00" unwrap-block>\nif (x) {\n  foo(); <tl to="2005-01-01 00:00:00">x</tl>\n  <tl to="2005-01-01 00:00:00">y</tl>\n}\n</tl>\nz\n',
             [(1104537600, []), (1262390400, [])])]
+    wit.append(("<", ">", '<tl to="2022-01-01 00:00:00"><tl to="2021-01-01 00:00:00">old</tl></tl>', [(1622505600, []), (1654041600, [])]))
+    wit.append(("<", ">", '<tl to="2022-01-01 00:00:00"><rm name="x">old</rm></tl>', [(1622505600, ["x"]), (1654041600, ["x"])]))
     for j, (ds, de, s, chain) in enumerate(wit):
         cid = f"w{j}"
         cases.append(G.dcase(cid, ds, de, s, G.Cfg("tl", "rm", "+00:00", chain[-1][0], tuple(chain[-1][1]))))
